@@ -124,7 +124,13 @@ def check(c, item):
             i1.py_set_dt(0.25); i2.py_set_dt(0.25)
             p1v, p2v = np.array(v1).copy(), np.array(v2).copy()
             for x in states_for(names)[:4]:
-                for t in (0.0, 0.5, 0.75):
+                ts = [0.0, 0.5, 0.75]
+                for r_ in sp['rules']:
+                    try:
+                        ts.append(float(r_['freq']))        # the exact firing time of a timed rule
+                    except (TypeError, ValueError):
+                        pass
+                for t in sorted(set(ts)):
                     for step in (True, False):
                         x1, x2 = state_vector(m, x), state_vector(m2, x)
                         v1[:] = p1v; v2[:] = p2v
